@@ -55,7 +55,11 @@ SPEC = {
              "with values whose base64 text has '+', '/', '=' padding of length 0/1/2, empty bytes, typed lists and dicts of "
              "them; StringField with leading / trailing / inner blanks, tabs, newlines, blank-only, empty, no-break spaces, "
              "CR (not under XML), typed lists and dicts of them; FloatField inf / -inf / nan / -0.0 / 1e300 / 5e-324 / 0.1 / "
-             "3.0 and lists of them (sign of zero compared); BoolField True/False next to IntField 1/0/-7/2^40; None in "
+             "3.0, 21 values with 7..17 significant digits and large/small exponents whose repr differs from the %g / %f / "
+             "%.6f / %.12g renderings (pi, 1234567.891, 0.1+0.2, 1e-7+1e-13, 1/3, max, min normal, 1e22, 1e23, 2^53+1 ...) "
+             "and lists of them (sign of zero compared); for every int/str/bool/float/bytes kind the variant 'the field "
+             "has that value as its DEFAULT and was explicitly assigned None before the save' (the fresh configuration "
+             "must hold None, not the default); BoolField True/False next to IntField 1/0/-7/2^40; None in "
              "every field type; empty typed list/dict -- reload into a fresh configuration, values compared with exact "
              "types. non-trivial = the destination existed before or a fault was injected; "
              "distinct = distinct (schema, values, faults, world)"),
